@@ -87,15 +87,19 @@ def collect(pid, tier, seed, v):
             rng.shuffle(rest)
             keys = base + popped[:250] + finishing[:250] + updates[:250] + (rest[:800] if pid != "C21" else [])
         else:
-            keys = list(allkeys)
-            d3, s3 = scripts(3, timeout=6000)
-            states += s3.distinct
-            trans += s3.generated
-            extra = [k for k in sorted(d3) if k not in design]
-            rng.shuffle(extra)
-            for k in extra[:12000]:
-                design[k] = d3[k]
-                keys.append(k)
+            # thorough: every script with at most one environment event, every script that places events between pop and start or
+            # between the last transaction and the finish, and a seeded sample of 15000 of the rest (the full set of two-event
+            # scripts is about 80 000; three-event scripts are not enumerated: their number exceeds what one run can replay)
+            def nenv(k):
+                return sum(1 for e in json.loads(k) if e["ev"] in ("new", "cancel", "qnew", "cmdcancel", "pause", "sendfail", "update"))
+            base = [k for k in allkeys if nenv(k) <= 1]
+            rest = [k for k in allkeys if nenv(k) > 1]
+            special = [k for k in rest if any(e["at"] in ("popped", "finishing", "updhook") and e["ev"] not in ("start", "finish") for e in json.loads(k))]
+            sp = set(special)
+            rest = [k for k in rest if k not in sp]
+            rng.shuffle(rest)
+            rng.shuffle(special)
+            keys = base + special[:6000] + (rest[:15000] if pid != "C21" else [])
         # baselines (scripts without Q's messages) must be part of the run
         ks = set(keys)
         for k in list(keys):
@@ -176,7 +180,7 @@ def collect(pid, tier, seed, v):
                "samples": [cases[len(cases) // 2]["script"], cases[len(cases) // 3]["script"]], "exhaustive": False,
                "scripts_two_env_events": n2, "scripts_total": len(cases), "scripts_with_second_peer": with_q, "scripts_with_baseline": sum(1 for rec in recs if rec["hasBaseline"]),
                "spec_mismatch": n_mismatch, "desync": n_desync, "baseline_differences_not_reproduced": n_unconfirmed,
-               "rule": "behaviours of ResponderScripts.tla with K=2 blocks and <= 2 (thorough: all, plus sampled 3) environment events projected on the "
+               "rule": "behaviours of ResponderScripts.tla with K=2 blocks and <= 2 environment events (quick: about 2 600, thorough: about 20 000 of them) projected on the "
                        "environment script; each replayed on the real responder with gates (storage read of the next block, outgoing block hook, network send) "
                        "holding it at the script's points"}
         if not v.new and not v.known_hit and n_desync > len(cases) // 4:
